@@ -142,6 +142,7 @@ def _compute_integral_ir(
     argument_shape: tuple[int, ...],
     visualise: bool,
     p: dict,
+    shared_piecewise: dict | None = None,
 ) -> tuple[
     dict[str, npt.NDArray[np.float64]],
     dict[str, _table_types],
@@ -273,7 +274,7 @@ def _compute_integral_ir(
                 F.nodes[i]["tr"] = tr
 
     # Attach 'status' to each node: 'inactive', 'piecewise' or 'varying'
-    analyse_dependencies(F, mt_table_reference)
+    analyse_dependencies(F, mt_table_reference, shared_piecewise)
 
     # Output diagnostic graph as pdf
     if visualise:
@@ -414,6 +415,7 @@ def compute_integral_ir(
     for integral_domain, integrands_on_domain in integrands.items():
         unique_tables[integral_domain] = {}
         unique_table_types[integral_domain] = {}
+        shared_piecewise: dict = {}
         for quadrature_rule, integrand in integrands_on_domain.items():
             expression = integrand
 
@@ -438,6 +440,7 @@ def compute_integral_ir(
                 argument_shape,
                 visualise,
                 p,
+                shared_piecewise,
             )
 
             # Add tables and types for this quadrature rule to global tables dict
@@ -465,7 +468,7 @@ def compute_integral_ir(
     )
 
 
-def analyse_dependencies(F, mt_unique_table_reference):
+def analyse_dependencies(F, mt_unique_table_reference, shared_piecewise=None):
     """Analyse dependencies.
 
     Sets 'status' of all nodes to either: 'inactive', 'piecewise' or 'varying'
@@ -501,6 +504,19 @@ def analyse_dependencies(F, mt_unique_table_reference):
             else:
                 if ttype not in ("fixed", "piecewise", "ones", "zeros"):
                     raise RuntimeError(f"Invalid ttype {ttype}.")
+                # The generated kernel shares piecewise values between its
+                # quadrature loops. A terminal that is piecewise for several
+                # rules but with different table values (single-point rules,
+                # or points where a function takes one value) has to be
+                # recomputed inside the loop of the later rule.
+                if shared_piecewise is not None and v["status"] == "active":
+                    first = shared_piecewise.setdefault(v["expression"], tr)
+                    if first is not tr and not (
+                        first.ttype == ttype
+                        and first.values.shape == tr.values.shape
+                        and np.allclose(first.values, tr.values)
+                    ):
+                        varying_indices.append(i)
 
         elif not is_cellwise_constant(v["expression"]):
             raise RuntimeError("Error " + str(tr))
